@@ -613,6 +613,9 @@ class _SetOperation(Selectable, Term):  # type:ignore[misc]
             quote_char=self.base_query.QUERY_CLS.SQL_CONTEXT.quote_char,
             parameterizer=ctx.parameterizer,
         )
+        # The position this set operation is embedded in only concerns the wrapping done at the end
+        outer_ctx = ctx
+        ctx = ctx.copy(subquery=False, with_alias=False, subcriterion=False, with_namespace=False)
         set_ctx = ctx.copy(subquery=self.base_query.wrap_set_operation_queries)
         base_querystring = self.base_query.get_sql(set_ctx)
 
@@ -638,14 +641,14 @@ class _SetOperation(Selectable, Term):  # type:ignore[misc]
         querystring += self._limit_sql(ctx)
         querystring += self._offset_sql(ctx)
 
-        if ctx.subquery:
+        if outer_ctx.subquery:
             querystring = "({query})".format(query=querystring)
 
-        if ctx.with_alias:
+        if outer_ctx.with_alias:
             return format_alias_sql(
                 querystring,
                 self.alias or self._table_name,  # type:ignore[arg-type]
-                ctx,
+                outer_ctx,
             )
 
         return querystring
@@ -1422,6 +1425,9 @@ class QueryBuilder(Selectable, Term):  # type:ignore[misc]
         has_reference_to_foreign_table = self._foreign_table
         has_update_from = self._update_table and self._from
 
+        # The flags describing the position this query is embedded in (parentheses, alias, sub-criterion)
+        # only concern the wrapping done at the end; the clauses inside must not see them.
+        outer_ctx = ctx
         ctx = ctx.copy(
             with_namespace=any(
                 [
@@ -1431,7 +1437,10 @@ class QueryBuilder(Selectable, Term):  # type:ignore[misc]
                     has_reference_to_foreign_table,
                     has_update_from,
                 ]
-            )
+            ),
+            subquery=False,
+            with_alias=False,
+            subcriterion=False,
         )
 
         if self._update_table:
@@ -1526,13 +1535,13 @@ class QueryBuilder(Selectable, Term):  # type:ignore[misc]
         if self._for_update:
             querystring += self._for_update_sql(ctx)
 
-        if ctx.subquery:
+        if outer_ctx.subquery:
             querystring = "({query})".format(query=querystring)
         if self._on_conflict:
             querystring += self._on_conflict_sql(ctx)
             querystring += self._on_conflict_action_sql(ctx)
-        if ctx.with_alias:
-            return format_alias_sql(querystring, self.alias, ctx)
+        if outer_ctx.with_alias:
+            return format_alias_sql(querystring, self.alias, outer_ctx)
 
         return querystring
 
@@ -1739,7 +1748,8 @@ class QueryBuilder(Selectable, Term):  # type:ignore[misc]
         return " WITH ROLLUP"
 
     def _having_sql(self, ctx: SqlContext) -> str:
-        having = self._havings.get_sql(ctx)  # type:ignore[union-attr]
+        having_ctx = ctx.copy(subquery=True)
+        having = self._havings.get_sql(having_ctx)  # type:ignore[union-attr]
         return f" HAVING {having}"
 
     def _offset_sql(self, ctx: SqlContext) -> str:
